@@ -134,6 +134,7 @@ def run_rule(acc: Acc, engine, block, conclusions, tier: str, via_block: bool) -
     text = RG.rule_text(RG.prop("i", (), "a"), conclusions)
     case0 = {"rule": text, "conclusions": [list(c[:1]) + [list(c[1])] + [c[2]] for c in conclusions]}
     rule = fl.Rule.create(text, engine)
+    rule.load(engine)  # loading a loaded rule again must give the same conclusions, not accumulate them
     if not rule.is_loaded():
         acc.violate("load", {}, case0, "loaded", "not loaded", f"valid rule not loaded: {text}")
         return
